@@ -5,13 +5,14 @@ CONSTANTS
   MaxSg = 1
   Threads = {"main", "w0"}
   BiPropMode = FALSE
-  Execs = {"cts"}
+  Execs = {"cts", "pf"}
   MaxClears = 0
   MaxEvals = 1
-  MaxEdges = 4
+  MaxEdges = 6
   MaxMarks = 0
   PropAllowed = FALSE
   SetAllAllowed = TRUE
+  LateEdges = FALSE
   RoundNodes <- RN_4_0
 INIT MCInit
 NEXT MCNext
